@@ -130,7 +130,7 @@ def main(argv):
     ]
     n_model = 0
     for focus in FOCI[tier]:
-        cfgname = f"MC_Sources_{'quick' if focus in FOCI['quick'] else 'thorough'}_{focus}"
+        cfgname = f"MC_Sources_{tier}_{focus}"   # the thorough cfgs have 3 default config files and 4 command line items
         # thorough: TLC checks every behaviour; the behaviours are kept as text and replayed in slices, for the large
         # instances a deterministic sample (1 in RAW_MOD, chosen by a digest of the record) -- decoded all at once
         # they do not fit into memory
@@ -171,7 +171,7 @@ def main(argv):
     return rep.finish()
 
 
-RAW_MOD: dict = {}   # focus -> 1 in n behaviours replayed in the thorough tier (default: all)
+RAW_MOD: dict = {"sn": 8}   # focus -> 1 in n behaviours replayed in the thorough tier (default: all); sn has 1.2 million
 
 
 def judge_model(rep, cases, results):
